@@ -42,7 +42,7 @@ ASSUMPTIONS = [
     'translated Header::position (their types are read from header.rs; that they read the frame is checked by the hdr cases of the differential run)',
 ]
 TRUSTED = [
-    'K1 source translator tools/props/c17_translate.py (Python, ~700 lines): lexer, precedence parser and typed emitter for the arithmetic '
+    'K1 source translator tools/props/c17_translate.py (Python, ~950 lines): lexer, precedence parser and typed emitter for the arithmetic '
     'subset of Rust described in its docstring; it fails closed (function left out, K1 reported broken, proofs about it fail) outside that subset. '
     'Trusted to read the Rust operators, operand types, casts, literals and evaluation order as rustc does for that subset',
     'coq/Base/MachineInt2.v: definitions of the shift (amount-checked), division / remainder (panic on 0 and MIN / -1) and i32 shift operators, '
